@@ -72,6 +72,8 @@ class Frame:
         self.inputs = inputs
         self.arrs = arrays_of(inputs)
         self.ids0 = attr_ids(inputs)
+        # dirty bits of the tracked arrays reachable from the inputs: a builder must not raise OR clear them
+        self.flags0 = {p_: bool(getattr(a_, '_modified')) for p_, a_ in self.arrs if hasattr(a_, '_modified')}
         if w.symbolic:
             self.bufs = {a.buf.id: p for p, a in self.arrs}
             self.n0 = len(CTX.writes)
@@ -83,6 +85,10 @@ class Frame:
         written, aliased = [], []
         rebound = [k for k, v in attr_ids(self.inputs).items() if self.ids0.get(k, v) != v
                    and not any(k.startswith(ap) for ap in allowed_paths)]
+        for p_, a_ in self.arrs:
+            if p_ in self.flags0 and hasattr(a_, '_modified') and bool(a_._modified) != self.flags0[p_] \
+                    and not any(p_.startswith(ap) for ap in allowed_paths):
+                rebound.append('dirty-bit:%s %s->%s' % (p_, self.flags0[p_], bool(a_._modified)))
         res_arrs = arrays_of(result, path='result')
         if w.symbolic:
             for bid, how in CTX.writes[self.n0:]:
